@@ -281,6 +281,26 @@ func (d *Decoder) readUntypedMap() (interface{}, error) {
 	return m, nil
 }
 
+// convertedMap converts a referenced generic map to the type of a typed map
+// field, once per (map, type): all the references of that type share the
+// result instead of each paying for (and owning) a full copy.
+func (d *Decoder) convertedMap(ref reflect.Value, mapTyp reflect.Type) (reflect.Value, bool) {
+	raw := UnpackPtrValue(ref)
+	if !raw.IsValid() || raw.Kind() != reflect.Map || mapTyp.Kind() != reflect.Map || raw.Type() == mapTyp {
+		return ref, false
+	}
+	key := _mapConversion{raw.Pointer(), mapTyp}
+	if cv, ok := d.mapConv[key]; ok {
+		return cv, true
+	}
+	cv := convertMapItem(mapTyp, raw.Interface())
+	if d.mapConv == nil {
+		d.mapConv = make(map[_mapConversion]reflect.Value)
+	}
+	d.mapConv[key] = cv
+	return cv, true
+}
+
 func (d *Decoder) readMap(dest reflect.Value, tag byte) error {
 	switch tag {
 	case _nilTag:
@@ -290,6 +310,9 @@ func (d *Decoder) readMap(dest reflect.Value, tag byte) error {
 		r, err := d.readRef(tag)
 		if err != nil {
 			return err
+		}
+		if cv, ok := d.convertedMap(r, UnpackPtrType(dest.Type())); ok {
+			r = cv
 		}
 		SetValue(dest, r)
 		return nil
